@@ -305,13 +305,12 @@ def r3_iterators(ctx):
         it = A(0)
         arr = ('fld', it, 'state_array')
         n = T.typed(('len', arr), 'usize')
+        idx0 = T.fld(it, 'index', 'usize')
+        isf = lambda j: T.typed(('fld', ('elem', arr, j), 'is_final'), 'bool')
         for itn in log.iterations:
-            # continuing means a[i] is not final and i advances by one
-            ivars = [hv for hv, ev in itn.mapping if T.TYPES.get(hv) == 'usize']
-            ok = len(ivars) == 1
-            if ok:
-                i = ivars[0]
-                ok = itn.cur.get(i) == T.mk_add(i, I(1)) and itn.lacks(T.typed(('fld', ('elem', arr, i), 'is_final'), 'bool')) and dict(itn.mapping).get(i) == T.fld(it, 'index', 'usize')
+            # continuing means a[i] is not final, for a position i that starts at self.index and advances by one
+            # (an index variable, the position of a slice iterator after skip(index), ..)
+            ok = any(ip.entails(itn.state, NOT(isf(i))) for i, _ in counters(ip, itn, idx0))
             ctx.obligation(ok)
             (ctx.ok if ok else ctx.violation)('C14.R3', 'C14.R3/FinalStateIterator::next/skips-exactly-non-final-states', fn.path, fn.site(), None, cfg)
         for o in log.outs:
@@ -319,21 +318,24 @@ def r3_iterators(ctx):
                 continue
             v = variant_of(ip, o.state, o.value)
             ws, obj = self_writes(ip, o)
-            heads = list(dict.fromkeys(t for f in o.pc for t in T.subterms(f) if t[0] == 'var' and '@bb' in t[1] and T.TYPES.get(t) == 'usize'))
-            ok = v is not None and len(heads) == 1
+            idx1 = ws.get('index', idx0)
+            ok = v is not None
             if ok:
-                i = heads[0]
                 if v[0] == 'Some':
-                    ok = (ip.to_term(o.state, v[1][0]) == ('elem', arr, i) and T.typed(('fld', ('elem', arr, i), 'is_final'), 'bool') in o.state.pcset and
-                          ws.get('index') == T.mk_add(i, I(1)))
+                    val = ip.to_term(o.state, v[1][0])
+                    ok = val[0] == 'elem' and val[1] == arr
+                    if ok:
+                        j_ = val[2]
+                        ok = ip.entails(o.state, isf(j_)) and ip.entails(o.state, eq(idx1, T.mk_add(j_, I(1)))) and ip.entails(o.state, le(idx0, j_))
                     role = 'yields-final-state-and-resumes-after-it'
                 else:
-                    ok = ip.entails(o.state, le(n, i)) and ws.get('index') == i
+                    # the scan ran out, and the iterator stays at (or beyond) the end: it keeps answering None
+                    ok = (loop_exhausted(ip, o.state) or ip.entails(o.state, le(n, idx0))) and ip.entails(o.state, le(n, idx1))
                     role = 'none-only-at-the-end'
             else:
                 role = 'leaf-shape'
             ctx.obligation(ok)
-            (ctx.ok if ok else ctx.violation)('C14.R3', 'C14.R3/FinalStateIterator::next/%s' % role, fn.path, fn.site(), {'returned': safe_show(ip, o)[:160]}, cfg)
+            (ctx.ok if ok else ctx.violation)('C14.R3', 'C14.R3/FinalStateIterator::next/%s' % role, fn.path, fn.site(), {'returned': safe_show(ip, o)[:160], 'leaf_constraints': pc_text(o, 8)}, cfg)
         for name, fld_ in (('num_states', 'num_states'), ('num_final_states', 'num_final_states')):
             an = analyse(ctx, cfg, AUT + name, [])
             check_leaves(ctx, 'C14.R3', name, an, cfg, lambda o, fld_=fld_: [('value', eq(o.value, T.fld(A(0), fld_, 'usize')))])
@@ -356,54 +358,57 @@ def r4_compile_successors(ctx):
         log = calllog.run(ctx, cfg, AUT + 'compile_successors', exact_casts=[('usize', 'u32')])
         ip, fn = log.ip, log.fn
         n = 0
+        from .. import loopsum
+        alphabet = ('call', AUT + 'pick_alphabet', (au,))
         for it in log.iterations:
-            sd = it.named('CompactTableBuilder::set_default')
             ss = it.named('CompactTableBuilder::set_successors')
-            hd = it.named('State::has_default_successor')
-            ok = len(ss) == 1 and len(hd) >= 1
+            if not ss:
+                continue      # an inner loop (building the successor list by hand): accounted for through its closed form
+            sd = it.named('CompactTableBuilder::set_default')
+            ok = len(ss) == 1
+            detail = {'calls': [T.show(calllog.call_term(c))[:160] for c in it.calls]}
             if ok:
                 n += 1
-                sref = hd[0][1][0]
-                sid = T.fld(sref, 'id', 'usize')
-                has = T.typed(calllog.call_term(hd[0]), 'bool')
-                if it.has(has):
-                    okd = len(sd) == 1 and sd[0][1][1] == sid and sd[0][1][2] == T.typed(('vfld', ('fld', sref, 'default_successor'), 'Some', '0'), 'usize')
-                else:
+                sid = ss[0][1][1]
+                ok = sid[0] == 'fld' and sid[2] == 'id'
+            if ok:
+                sref = sid[1]
+                # the state of this iteration: the element of self.states() at the loop position
+                ok = (sref[0] == 'elem' and sref[1] == ('items', ('call', AUT + 'states', (au,))) and
+                      any(sref[2] == c_ for c_, _ in counters(ip, it, I(0))))
+            if ok:
+                dflt = ('fld', sref, 'default_successor')
+                has = T.typed(('call', ST + 'has_default_successor', (sref,)), 'bool')
+                present = it.has(has) or known_variant(ip, it.state, dflt) == 1
+                absent = it.lacks(has) or known_variant(ip, it.state, dflt) == 0
+                if present and not absent:
+                    okd = len(sd) == 1 and sd[0][1][1] == sid and sd[0][1][2] == T.typed(('vfld', dflt, 'Some', '0'), 'usize')
+                elif absent and not present:
                     okd = not sd
-                suc = ss[0][1][2]
-                alphabet = ('call', AUT + 'pick_alphabet', (au,))
-                oks = ss[0][1][1] == sid and suc[0] == 'call' and 'collect' in suc[1]
+                else:
+                    okd = False
+                # the successor list in closed form (chain .filter().map().collect() or a hand-written push loop):
+                #   [(i, next(s, c).id) for (i, c) in enumerate(alphabet) if !char_maps_to_default(s, c)]
+                suc = loopsum.close_term(ip, it.state, ss[0][1][2])
+                detail['successors'] = T.show(suc)[:500]
+                oks = isinstance(suc, tuple) and suc[0] == 'filtermap' and suc[1] == alphabet
+                if oks:
+                    k = suc[2]
+                    ch = ('elem', alphabet, k)
+                    keep = NOT(T.typed(('call', ST + 'char_maps_to_default', (sref, ch)), 'bool'))
+                    pair = ('tuple', (k, ('fld', ('call', AUT + 'next', (au, sref, ch)), 'id')))
+                    oks = suc[3] == keep and suc[4] == pair
                 ok = okd and oks
-                # the collected iterator: alphabet.iter().enumerate().filter(c1).map(c2)
-                chain = T.show(suc)
-                ok = ok and 'filter' in chain and 'map' in chain and 'enumerate' in chain and T.show(alphabet) in chain
+                detail['default_ok'], detail['successors_ok'] = okd, oks
             ctx.obligation(ok)
-            (ctx.ok if ok else ctx.violation)('C14.R4', 'C14.R4/compile_successors/default-iff-present-and-successors-of-same-state', fn.path, fn.site(), {'calls': [T.show(calllog.call_term(c))[:160] for c in it.calls]}, cfg)
+            (ctx.ok if ok else ctx.violation)('C14.R4', 'C14.R4/compile_successors/default-iff-present-and-successors-of-same-state', fn.path, fn.site(), detail, cfg)
         ctx.obligation(n >= 2)
         (ctx.ok if n >= 2 else ctx.violation)('C14.R4', 'C14.R4/compile_successors/state-loop-found', fn.path, fn.site(), None, cfg)
-        # the two closures: filter = not char_maps_to_default(s, c) ; map = (i, next(s, c).id) for the same (i, c)
-        clos = sorted(f.path for f in cr.nontest_fns() if f.path.startswith(AUT + 'compile_successors::{closure#'))
-        okf = okm = False
-        for cp in clos:
-            an = analyse(ctx, cfg, cp, [], uninterpreted=lambda p: True, _exact_casts=[('usize', 'u32')])
-            cfn = an.fn
-            for o in an.rets:
-                t = an.ip.to_term(o.state, o.value)
-                env, item = A(0), A(1)
-                if T.is_boolean_term(t) or (isinstance(t, tuple) and t[0] in ('not', 'call', 'fld')) and cfn.d['ret_ty'] == 'bool':
-                    cm = [c for c in o.state.calls if c[0].endswith('State::char_maps_to_default')]
-                    if len(cm) == 1:
-                        okf = T.valid_iff([], t, NOT(T.typed(calllog.call_term(cm[0]), 'bool'))) and 'a1' in T.show(cm[0][1][1]) and '.1' in T.show(cm[0][1][1])
-                else:
-                    nx = [c for c in o.state.calls if c[0] == AUT + 'next']
-                    if len(nx) == 1 and t[0] == 'tuple':
-                        i_t, id_t = t[1]
-                        ch = nx[0][1][2]
-                        okm = ('.0' in T.show(i_t) or 'fld' in repr(i_t)) and id_t == T.fld(calllog.call_term(nx[0]), 'id', 'usize') and 'a1' in T.show(ch) and 'a1' in T.show(i_t)
-        ctx.obligation(okf)
-        (ctx.ok if okf else ctx.violation)('C14.R4', 'C14.R4/compile_successors/filter-drops-exactly-chars-mapping-to-default', fn.path, fn.site(), {'closures': clos}, cfg)
-        ctx.obligation(okm)
-        (ctx.ok if okm else ctx.violation)('C14.R4', 'C14.R4/compile_successors/pair-is-(index,id-of-next-on-its-own-char)', fn.path, fn.site(), {'closures': clos}, cfg)
+        for o in log.outs:
+            if o.kind == 'ret':
+                ok = loop_exhausted(ip, o.state)
+                ctx.obligation(ok)
+                (ctx.ok if ok else ctx.violation)('C14.R4', 'C14.R4/compile_successors/every-state-and-every-character-visited', fn.path, fn.site(), {'exits': [str(e) for e in o.state.loop_exits]}, cfg)
         # char_maps_to_default
         an = analyse(ctx, cfg, ST + 'char_maps_to_default', [], uninterpreted=lambda p: p.endswith('class_of_char'))
         s_, c_ = A(0), T.var('a1', 'u32')
